@@ -299,6 +299,22 @@ mod verif_replay_c04_params {
 }
 '''
 
+ORDER_TEST = '''
+#[cfg(test)]
+mod verif_replay_c04_param_order {
+    #[test]
+    fn c04_canonical_parameters_are_ordered_by_folded_name_then_value() {
+        let url: hyper::Uri = %(url)s.parse().unwrap();
+        let mut want: Vec<(String, String)> = super::query_pairs(&url).into_iter().map(|(k, v)| (k.to_lowercase(), v)).collect();
+        want.sort_by(|a, b| format!("{}{}", a.0, a.1).cmp(&format!("{}{}", b.0, b.1)));
+        want.dedup_by(|a, b| format!("{}{}", a.0, a.1) == format!("{}{}", b.0, b.1));
+        let want: Vec<String> = want.into_iter().map(|(k, v)| if v.is_empty() { k } else { format!("{}={}", k, v) }).collect();
+        let canon = super::get_path_and_canonicalized_parameters(&url).1;
+        assert_eq!(canon, want.join("&"), "canonical parameters of {:?}", %(url)s);
+    }
+}
+'''
+
 HEADER_TEST = '''
 #[cfg(test)]
 mod verif_replay_c04_headers {
@@ -363,6 +379,26 @@ def check_canonicalisers(rep, ctx, tier):
         same = "(assert (= %s %s))\n" % (inst(kt, "k1", "v1"), inst(kt, "k2", "v2"))
         qa = decl + "(assert (= (str.to_lower k1) (str.to_lower k2)))\n(assert (not (= v1 v2)))\n" + same + "(check-sat)\n(get-model)\n"
         qb = decl + "(assert (not (= (str.to_lower k1) (str.to_lower k2))))\n" + same + "(check-sat)\n(get-model)\n"
+        # the sort key is lower(name) ++ value: parameters are ordered by their FOLDED names (what is emitted), as the host orders them
+        qo = "(set-logic ALL)\n(declare-const k1 String)\n(declare-const v1 String)\n" + smtstr.ascii_bounded("k1", N, 0x30, 0x7a) + smtstr.ascii_bounded("v1", N, 0x30, 0x7a) + \
+            "(assert (>= (str.len k1) 1))\n(assert (not (= %s (str.++ (str.to_lower k1) v1))))\n(check-sat)\n(get-model)\n" % inst(kt, "k1", "v1")
+        qn = "canonical parameters (key = %s): the sort key of a parameter is its lower-cased name followed by its value" % kt
+        res, model, dt, raw = smtstr.run_cvc5(qo)
+        if res == "unsat":
+            rep.add(Query(qn + " (names/values <= %d chars)" % N, "holds", "", dt, "mirsym+cvc5", key="C04.canonical-params:sort-key"))
+        elif res == "sat":
+            k1 = model.get("k1", "A")
+            url = "http://localhost/p?%s=%s&0=1&A=1&Z=1&_=1&a=1&m=1&z=1&%s=0&KeyOnly" % (k1, model.get("v1", "") or "1", k1.lower() + "0")
+            code = ORDER_TEST % {"url": json.dumps(url)}
+            tres, out = replay.run_rust_tests("azure-proxy-agent", [("proxy_agent/src/common/hyper_client.rs", code)], "verif_replay_c04_param_order")
+            rp = save_replay("C04", "sort-key.rs", "// append to proxy_agent/src/common/hyper_client.rs; cargo test -p azure-proxy-agent verif_replay_c04_param_order\n" + code)
+            st = (tres or {}).get("c04_canonical_parameters_are_ordered_by_folded_name_then_value")
+            if st == "FAILED":
+                rep.traces_validated += 1
+            rep.add(Query(qn, "violated" if st == "FAILED" else "inconclusive", "cvc5 model %s -> url %s; native replay against the reference order: %s" % (model, url, st), dt, "mirsym+cvc5",
+                          key="C04.canonical-params:sort-key", model=model, replay=rp, reproduced=True if st == "FAILED" else (False if st == "ok" else None)))
+        else:
+            rep.add(Query(qn, "inconclusive", raw, dt, "mirsym+cvc5", key="C04.canonical-params:sort-key"))
         for (qn, q, key) in (("canonical parameters (key = %s): two values of the SAME name never collapse into one entry" % kt, qa, "C04.canonical-params:same-name-values-collapse"),
                              ("canonical parameters (key = %s): parameters with DIFFERENT names never collapse into one entry" % kt, qb, "C04.canonical-params:different-names-collapse")):
             res, model, dt, raw = smtstr.run_cvc5(q)
